@@ -17,20 +17,12 @@ Local Open Scope Z_scope.
    etl::floor/ceil/trunc for float and double; every call for long double.  For every format with
    2 <= prec <= 64 (the bound is the width of long long; binary32, binary64, x87 extended) *)
 Theorem C16_gcem_floor_ceil_trunc_exact :
-  forall prec emax (Hp : Prec_gt_0 prec) (Hpe : Prec_lt_emax prec emax),
-  2 <= prec <= 64 -> forall x : binary_float prec emax,
-  g_floor prec emax Hp Hpe x = Ok (spec_floor prec emax Hpe x) /\
-  g_ceil prec emax Hp Hpe x = Ok (spec_ceil prec emax Hpe x) /\
-  g_trunc prec emax Hp Hpe x = Ok (spec_trunc prec emax Hpe x).
-Proof.
-  intros prec emax Hp Hpe H x.
-  exact (conj (g_floor_exact prec emax Hp Hpe H x) (conj (g_ceil_exact prec emax Hp Hpe H x)
-                                                          (g_trunc_exact prec emax Hp Hpe H x))).
-Qed.
-Print Assumptions C16_gcem_floor_ceil_trunc_exact.
-
-(* ... spelled out for the three formats of the target *)
-Theorem C16_gcem_floor_ceil_trunc_exact_formats :
+  (forall prec emax (Hp : Prec_gt_0 prec) (Hpe : Prec_lt_emax prec emax),
+   2 <= prec <= 64 -> forall x : binary_float prec emax,
+   g_floor prec emax Hp Hpe x = Ok (spec_floor prec emax Hpe x) /\
+   g_ceil prec emax Hp Hpe x = Ok (spec_ceil prec emax Hpe x) /\
+   g_trunc prec emax Hp Hpe x = Ok (spec_trunc prec emax Hpe x)) /\
+  (* ... spelled out for the three formats of the target *)
   (forall x : b32, g_floor 24 128 p32 pe32 x = Ok (spec_floor 24 128 pe32 x) /\
                    g_ceil 24 128 p32 pe32 x = Ok (spec_ceil 24 128 pe32 x) /\
                    g_trunc 24 128 p32 pe32 x = Ok (spec_trunc 24 128 pe32 x)) /\
@@ -41,11 +33,13 @@ Theorem C16_gcem_floor_ceil_trunc_exact_formats :
                    g_ceil 64 16384 p80 pe80 x = Ok (spec_ceil 64 16384 pe80 x) /\
                    g_trunc 64 16384 p80 pe80 x = Ok (spec_trunc 64 16384 pe80 x)).
 Proof.
-  exact (conj (fun x => conj (g_floor_exact_b32 x) (conj (g_ceil_exact_b32 x) (g_trunc_exact_b32 x)))
+  exact (conj (fun prec emax Hp Hpe H x => conj (g_floor_exact prec emax Hp Hpe H x) (conj (g_ceil_exact prec emax Hp Hpe H x)
+                                                                                       (g_trunc_exact prec emax Hp Hpe H x)))
+        (conj (fun x => conj (g_floor_exact_b32 x) (conj (g_ceil_exact_b32 x) (g_trunc_exact_b32 x)))
         (conj (fun x => conj (g_floor_exact_b64 x) (conj (g_ceil_exact_b64 x) (g_trunc_exact_b64 x)))
-              (fun x => conj (g_floor_exact_b80 x) (conj (g_ceil_exact_b80 x) (g_trunc_exact_b80 x))))).
+              (fun x => conj (g_floor_exact_b80 x) (conj (g_ceil_exact_b80 x) (g_trunc_exact_b80 x)))))).
 Qed.
-Print Assumptions C16_gcem_floor_ceil_trunc_exact_formats.
+Print Assumptions C16_gcem_floor_ceil_trunc_exact.
 
 (* gcem round (halfway cases away from zero; after 1802224 floor(|x|) + 1 is added in the
    floating-point type): every format with 2 <= prec <= 64, spelled out for the three formats *)
@@ -111,33 +105,29 @@ Example C16_lerp_nonvacuous :
   option_map enc32 (spec_lerp_exact 24 128 p32 pe32 (dec32 1077936128) (dec32 1084227584) (dec32 0)) = Some 1077936128.
 Proof. vm_compute. reflexivity. Qed.
 
-(* midpoint(Float, Float) ([numeric.ops.midpoint]: "no overflow occurs"): the result is finite
-   for every pair of finite operands, every format with 2 <= prec *)
-Theorem C16_midpoint_no_overflow :
-  forall prec emax (Hp : Prec_gt_0 prec) (Hpe : Prec_lt_emax prec emax), 2 <= prec ->
-  forall a b : binary_float prec emax, is_finite a = true -> is_finite b = true ->
-  is_finite (e_midpoint prec emax Hp Hpe a b) = true.
-Proof. exact e_midpoint_finite. Qed.
-Print Assumptions C16_midpoint_no_overflow.
-
-(* ... and it is the correctly rounded (a + b) / 2 (round to nearest even, IEEE sign of a zero sum),
-   bit for bit, for EVERY pair of finite operands — every format with 2 <= prec, prec + 7 <= 2 emax
-   (binary32: 31 <= 256, binary64: 60 <= 2048, x87: 71 <= 32768); "at most one inexact operation" *)
+(* midpoint(Float, Float) ([numeric.ops.midpoint]: "no overflow occurs"): the result is finite for every pair of finite
+   operands, every format with 2 <= prec [first conjunct];
+   ... and it is the correctly rounded (a + b) / 2 (round to nearest even, IEEE sign of a zero sum), bit for bit, for EVERY
+   pair of finite operands - every format with 2 <= prec, prec + 7 <= 2 emax (binary32: 31 <= 256, binary64: 60 <= 2048,
+   x87: 71 <= 32768); "at most one inexact operation" [second conjunct, then spelled out for the three formats] *)
 Theorem C16_midpoint_exact :
-  forall prec emax (Hp : Prec_gt_0 prec) (Hpe : Prec_lt_emax prec emax), 2 <= prec -> prec + 7 <= 2 * emax ->
-  forall a b : binary_float prec emax, is_finite a = true -> is_finite b = true ->
-  spec_midpoint prec emax Hp Hpe a b = Some (e_midpoint prec emax Hp Hpe a b).
-Proof. exact e_midpoint_exact. Qed.
-Print Assumptions C16_midpoint_exact.
-Theorem C16_midpoint_exact_formats :
+  (forall prec emax (Hp : Prec_gt_0 prec) (Hpe : Prec_lt_emax prec emax), 2 <= prec ->
+   forall a b : binary_float prec emax, is_finite a = true -> is_finite b = true ->
+   is_finite (e_midpoint prec emax Hp Hpe a b) = true) /\
+  (forall prec emax (Hp : Prec_gt_0 prec) (Hpe : Prec_lt_emax prec emax), 2 <= prec -> prec + 7 <= 2 * emax ->
+   forall a b : binary_float prec emax, is_finite a = true -> is_finite b = true ->
+   spec_midpoint prec emax Hp Hpe a b = Some (e_midpoint prec emax Hp Hpe a b)) /\
   (forall a b : b32, is_finite a = true -> is_finite b = true ->
      spec_midpoint 24 128 p32 pe32 a b = Some (e_midpoint 24 128 p32 pe32 a b)) /\
   (forall a b : b64, is_finite a = true -> is_finite b = true ->
      spec_midpoint 53 1024 p64 pe64 a b = Some (e_midpoint 53 1024 p64 pe64 a b)) /\
   (forall a b : b80, is_finite a = true -> is_finite b = true ->
      spec_midpoint 64 16384 p80 pe80 a b = Some (e_midpoint 64 16384 p80 pe80 a b)).
-Proof. repeat split; apply e_midpoint_exact; lia. Qed.
-Print Assumptions C16_midpoint_exact_formats.
+Proof.
+  split; [exact e_midpoint_finite|]. split; [exact e_midpoint_exact|].
+  repeat split; apply e_midpoint_exact; lia.
+Qed.
+Print Assumptions C16_midpoint_exact.
 
 (* gcem fmod and remainder (exact binary long division since commit 57a95a0; the constant-evaluation
    paths of etl::fmod / etl::remainder): the fuelled model always returns a value (the fuel,
